@@ -92,4 +92,5 @@ package base
 //@   opt safety-tag=C20
 //@   ensures[C20] ret != nil && fresh(ret) && ret.User == nil
 //@   ensures[C20] ret.Scheme == u.Scheme && ret.Host == u.Host && ret.Path == u.Path && ret.RawPath == u.RawPath && ret.RawQuery == u.RawQuery && ret.ForceQuery == u.ForceQuery
+//@   ensures[C20] ret.Opaque == "" && !ret.OmitHost && ret.Fragment == "" && ret.RawFragment == ""
 //@   modifies fresh
